@@ -442,11 +442,18 @@ class FcpV2Transformer(Transformer):
 
         try:
             self.error_logger.add_source(filename.name, source)
+            # modules in different directories may share their file name
+            self.error_logger.add_source(str(filename), source)
+            self.error_logger.add_source(str(pathlib.Path(filename).resolve()), source)
             fcp_ast = fcp_parser.parse(source)
         except UnexpectedInput as e:
             return error(
                 self.error_logger.log_lark(filename.name, e),
                 _syntax_error_token(e, source, filename),
+            ).map_err(
+                lambda err: err.results_in(
+                    f"Failed to import {filename}", Token(_get_meta(tree, self))
+                )
             )
 
         try:
